@@ -36,3 +36,11 @@ Example C15_example :
   let s := run init [Write 0; Down; Write 0; Write 1; Tick; ARestart; Write 1; Up; Tick] in
   has s 0 = 2 /\ has s 1 = 2 /\ retry s = [] /\ active s = true.
 Proof. vm_compute. auto. Qed.
+
+(* a failure whose bookkeeping is abandoned breaks the invariant for good (finding F64, repaired: the handler records
+   the failure again after a conflict) *)
+Theorem C15_unrecorded_failure_refuted :
+  let s := write_unrecorded (run init [Down; Write 0]) 1 in
+  ~ Inv s /\ has (step (step s Up) Tick) 1 <> head (step (step s Up) Tick) 1.
+Proof. exact unrecorded_failure_refuted. Qed.
+Print Assumptions C15_unrecorded_failure_refuted.
